@@ -3,6 +3,7 @@ package main
 import (
 	"encoding/json"
 	"fmt"
+	"github.com/beevik/etree"
 	"strings"
 	"time"
 
@@ -72,6 +73,47 @@ type c08Case struct {
 	// OuterWrap: the base64 text of the message as a MIME encoder writes it: 1 LF every 76
 	// characters, 2 CRLF every 64, 3 CRLF every 76, 4 one trailing CRLF
 	OuterWrap int `json:"outer_base64_wrap,omitempty"`
+	// Lookalike: before signing, the IdP's serialiser also writes namespace-QUALIFIED attributes
+	// named like SAML's own (which are unqualified) on Conditions, SubjectConfirmationData,
+	// AuthnStatement and the first Attribute, holding other values, with the prefix declared on
+	// an ancestor. They are signed like everything else; what is returned is what the SAML
+	// attributes say
+	Lookalike bool `json:"qualified_lookalike_attributes,omitempty"`
+}
+
+// c08AddLookalikes writes the qualified look-alike attributes into every assertion of root.
+func c08AddLookalikes(root *etree.Element) {
+	for _, as := range oracle.Children(root, oracle.NSA, "Assertion") {
+		prefix := as.Space
+		if prefix == "" {
+			prefix = "sa"
+			as.CreateAttr("xmlns:sa", oracle.NSA)
+		}
+		var walk func(e *etree.Element)
+		walk = func(e *etree.Element) {
+			switch e.Tag {
+			case "Conditions":
+				e.CreateAttr(prefix+":NotOnOrAfter", "2099-01-01T00:00:00Z")
+				e.CreateAttr(prefix+":NotBefore", "1999-01-01T00:00:00Z")
+			case "SubjectConfirmationData":
+				e.CreateAttr(prefix+":NotOnOrAfter", "2099-01-01T00:00:00Z")
+				e.CreateAttr(prefix+":Recipient", "https://evil.example.com/acs")
+				e.CreateAttr(prefix+":InResponseTo", "_other-request")
+			case "AuthnStatement":
+				e.CreateAttr(prefix+":SessionIndex", "_other-session")
+			case "Attribute":
+				e.CreateAttr(prefix+":Name", "other-name")
+			case "NameID":
+				e.CreateAttr(prefix+":Format", "urn:example:other-format")
+			}
+			for _, ch := range e.ChildElements() {
+				if ch.Tag != "Signature" {
+					walk(ch)
+				}
+			}
+		}
+		walk(as)
+	}
 }
 
 func c08WrapOuter(enc string, mode int) string {
@@ -136,6 +178,13 @@ func c08Spec(c c08Case) idp.ResponseSpec {
 			vals[i] = fmt.Sprintf("group-%03d", i)
 		}
 		a.AttrStatements = [][]idp.AttrSpec{{{Name: "memberOf", Values: vals}, {Name: "uid", Values: []string{"alice"}}}}
+	case 7:
+		// typed values: 70 AttributeValues that each declare xs and xsi again (140 declarations)
+		vals := make([]string, 70)
+		for i := range vals {
+			vals[i] = fmt.Sprintf("group-%03d", i)
+		}
+		a.AttrStatements = [][]idp.AttrSpec{{{Name: "memberOf", Values: vals, Typed: true}, {Name: "uid", Values: []string{"alice"}, Typed: true}}}
 	case 5:
 		// the same Name on two Attribute elements (distinguished by NameFormat), and once more
 		a.AttrStatements = [][]idp.AttrSpec{{
@@ -222,6 +271,9 @@ func c08Doc(c c08Case) (enc string, want oracle.ResponseT, xml []byte, err error
 		idp.InjectComments(as[0], c.Comments)
 	}
 	want = oracle.ResponseFromElement(root)
+	if c.Lookalike {
+		c08AddLookalikes(root)
+	}
 	for i, a := range as {
 		if spec.Assertions[i].Sign.Signed() {
 			idp.SignInPlace(a, spec.Assertions[i].Sign)
@@ -490,7 +542,7 @@ func c08Gen(ch *mc.Chooser) c08Case {
 	c.Comments = ch.Choose("comments", 5)
 	c.N = 1 + ch.Choose("n", 3)
 	c.TwoStmts = ch.Bool("two-statements")
-	c.AttrShape = ch.Choose("attr-shape", 7)
+	c.AttrShape = ch.Choose("attr-shape", 8)
 	c.Authn = ch.Choose("authn", 6)
 	c.NoInResp = ch.Bool("no-inresponseto")
 	c.NameID = ch.Choose("nameid", len(c08Values))
@@ -553,6 +605,17 @@ func c08Cases(r *mc.Run) []c08Case {
 		cases = append(cases, c)
 	})
 	r.Set("mixed_canonicaliser_product", len(cases)-na)
+	// (a'') qualified look-alike attributes written (and signed) by the IdP
+	nl := len(cases)
+	mc.Enumerate(-1, r.Expired, func(ch *mc.Chooser) {
+		c := c08Case{N: 1, Lookalike: true}
+		c.Placement = ch.Choose("placement", 3)
+		c.C14N = ch.Choose("c14n", len(idp.AllC14N))
+		c.Prefix = ch.Choose("prefix", 4)
+		c.N = 1 + ch.Choose("n", 2)
+		cases = append(cases, c)
+	})
+	r.Set("qualified_lookalike_product", len(cases)-nl)
 	// (b) deviation-bounded layouts and contents
 	bound := 2
 	if r.Thorough() {
